@@ -355,11 +355,20 @@ func Main(c *Check, tb *testing.T) int {
 				break
 			}
 		}
-		if !confirmed && first.res.idx <= 400 {
-			if path, ok := reportPrefix(c, tier, master, first.v, first.res); ok {
-				fmt.Printf("VIOLATION property=%s replay=%s\n", first.v.Prop, path)
-				fmt.Printf("  class=%s item=%s (needs the preceding runs of the batch: state carried across calls)\n  %s\n", first.v.Class, first.v.Item, first.v.Detail)
-				confirmed = true
+		if !confirmed {
+			// state carried by the code under test from earlier runs: replay the batch prefix sequentially.  The
+			// first occurrence may owe its state to a run that merely ran alongside it in the parallel batch, so
+			// later occurrences are tried too.
+			for oi, o := range occs[key] {
+				if o.res.idx > 400 || oi >= 3 {
+					break
+				}
+				if path, ok := reportPrefix(c, tier, master, o.v, o.res); ok {
+					fmt.Printf("VIOLATION property=%s replay=%s\n", o.v.Prop, path)
+					fmt.Printf("  class=%s item=%s (needs the preceding runs of the batch: state carried across calls)\n  %s\n", o.v.Class, o.v.Item, o.v.Detail)
+					confirmed = true
+					break
+				}
 			}
 		}
 		if confirmed {
